@@ -480,19 +480,26 @@ def run_pipe(c):
         try:
             m = c['fs_mult']
             # settings given in seconds are expressed in the new time unit (the same number of samples)
+            # Which settings are in seconds is decided from the case as GENERATED (c['bk'], c['fek']), never from the live
+            # option objects: those are the caller's objects shared by every call of the case, and a library that writes
+            # into them must show up as a changed replay, not be compensated for here.  Objects without such settings are
+            # passed on as they are (the same objects again).
             kw2 = dict(kw)
+            bk_spec = c.get('bk') or {}
             bk2 = kw.get('burst_kwargs')
-            if c['method'] == 'amp' and bk2:
+            if c['method'] == 'amp' and bk2 and (bk_spec.get('min_burst_duration') is not None
+                                                 or 'n_seconds' in (bk_spec.get('filter_kwargs') or {})):
                 bk2 = _deep(bk2)
-                if bk2.get('min_burst_duration') is not None:
-                    bk2['min_burst_duration'] = bk2['min_burst_duration'] / m
-                if 'n_seconds' in (bk2.get('filter_kwargs') or {}):
-                    bk2['filter_kwargs']['n_seconds'] = bk2['filter_kwargs']['n_seconds'] / m
+                if bk_spec.get('min_burst_duration') is not None:
+                    bk2['min_burst_duration'] = bk_spec['min_burst_duration'] / m
+                if 'n_seconds' in (bk_spec.get('filter_kwargs') or {}):
+                    bk2['filter_kwargs']['n_seconds'] = bk_spec['filter_kwargs']['n_seconds'] / m
                 kw2['burst_kwargs'] = bk2
+            fek_spec = c.get('fek') or {}
             fek2 = kw.get('find_extrema_kwargs')
-            if fek2 and 'n_seconds' in (fek2.get('filter_kwargs') or {}):
+            if fek2 and 'n_seconds' in (fek_spec.get('filter_kwargs') or {}):
                 fek2 = _deep(fek2)
-                fek2['filter_kwargs']['n_seconds'] = fek2['filter_kwargs']['n_seconds'] / m
+                fek2['filter_kwargs']['n_seconds'] = fek_spec['filter_kwargs']['n_seconds'] / m
                 kw2['find_extrema_kwargs'] = fek2
                 out['fs_nseconds'] = True
             dff = call_compute_features(sig, c, fs=c['fs'] * m, f_range=[c['f_range'][0] * m, c['f_range'][1] * m], kw=kw2)
